@@ -89,7 +89,10 @@ func ModelEqual(a, b cty.Value) bool {
 		}
 		return true
 	case ty.IsCapsuleType():
-		return model.CapX(a) == model.CapX(b)
+		if ty.Equals(model.CapsuleB) {
+			return model.CapX(a) == model.CapX(b) // capsule B declares value equality
+		}
+		return a.EncapsulatedValue() == b.EncapsulatedValue() // plain capsules: identity
 	}
 	panic(fmt.Sprintf("ModelEqual: unsupported type %#v", ty))
 }
